@@ -438,6 +438,12 @@ func loadCase(t *testing.T, path string) *Case {
 	return &c
 }
 
+// ArgKeeper is implemented by engines some of whose integer arguments must not be shrunk (e.g.
+// values that the oracle relies on being unique).
+type ArgKeeper interface {
+	KeepArg(op Op, argIndex int) bool
+}
+
 // Shrink minimises a failing case while the same violation class persists.
 func Shrink(t *testing.T, e Engine, c *Case, maxExec int) *Case {
 	want := c.Violation
@@ -480,8 +486,12 @@ func Shrink(t *testing.T, e Engine, c *Case, maxExec int) *Case {
 		return ok
 	})
 	// 3. shrink integer arguments toward 0 (halving), a few rounds
+	keeper, _ := e.(ArgKeeper)
 	for oi := range best.Ops {
 		for ai := range best.Ops[oi].A {
+			if keeper != nil && keeper.KeepArg(best.Ops[oi], ai) {
+				continue
+			}
 			for best.Ops[oi].A[ai] > 1 {
 				x := best.Clone()
 				x.Ops[oi].A[ai] /= 2
